@@ -47,6 +47,10 @@ pub struct Case {
     /// a transparent surface, so the surface then shows the layer's pixels
     #[serde(default)]
     pub layer: Option<(i32, i32, i32, i32)>,
+    /// with `layer`: pop the layer's clip rectangle again before the draw, so that the draw meets a layer
+    /// narrower than the surface with (possibly) an empty clip stack - fill_rect then takes its maskless fast path
+    #[serde(default)]
+    pub layer_clip_popped: bool,
 }
 
 fn shift_path(p: &PathSpec, dx: i32, dy: i32) -> PathSpec {
@@ -87,6 +91,9 @@ fn render(c: &Case, ox: i32, oy: i32) -> Vec<u32> {
         // previous values go into the layer: Src at full coverage writes the texels exactly
         let image = Image { width: bw, height: bh, data: &init };
         dt.draw_image_at(0.0, 0.0, &image, &DrawOptions { blend_mode: BlendMode::Src, alpha: 1.0, antialias: AntialiasMode::Gray });
+        if c.layer_clip_popped {
+            dt.pop_clip();
+        }
     }
     match &c.clip {
         ClipSpec::None => {}
@@ -323,6 +330,7 @@ pub fn check(c: &Case) -> CheckResult {
     o.class_if(mode != SRC_OVER, "non-srcover");
     o.class(c.src.kind());
     o.class_if(c.layer.is_some(), "inside-layer");
+    o.class_if(c.layer.is_some() && c.layer_clip_popped && matches!(c.route, Route::Rect) && matches!(c.clip, ClipSpec::None), "fast-path-fill_rect-into-narrow-layer");
     o.class_if(c.w > 256 || c.h > 256, "surface-beyond-256");
     o.class_if(matches!(c.layer, Some(r) if r.0 > 0 || r.1 > 0), "inside-layer-with-nonzero-origin");
     Ok(o)
@@ -354,7 +362,8 @@ pub fn strategy(ctx: &Ctx) -> BoxedStrategy<Case> {
             // clear() takes a solid colour
             let src = if matches!(route, Route::Clear) && !src.is_solid() { SrcSpec::Solid(0x80402010) } else { src };
             // clear() goes through the clip stack when a layer/clip is present: fine either way
-            Case { w, h, init, src, alpha, mode, route, clip, shift, layer }
+            let layer_clip_popped = layer.is_some() && (alpha.to_bits() >> 5) % 3 == 0;
+            Case { w, h, init, src, alpha, mode, route, clip, shift, layer, layer_clip_popped }
         })
         .boxed()
 }
